@@ -112,9 +112,14 @@ def lookupStr (mp : List (String × String)) (k : String) : Option String :=
 def renameRow (mp : List (String × String)) (row : Row) : Row :=
   Row.ofPairs (row.map (fun kv => ((lookupStr mp kv.1).getD kv.1, kv.2)))
 
+def hasDup : List String → Bool
+  | [] => false
+  | x :: xs => xs.contains x || hasDup xs
+
 def renameFieldsRes (O : ReOracle) (pairs : List (String × String)) (r : Res) : Except Err Res := do
   let (fs, mp) ← renameLoop O pairs r.fields []
-  pure { r with fields := fs, rows := r.rows.map (renameRow mp) }
+  if hasDup (fs.map Field.name) then .error (.assertion "Renaming a field to the name of an existing field")
+  else pure { r with fields := fs, rows := r.rows.map (renameRow mp) }
 
 def renameFields (O : ReOracle) (fields : List (String × String)) (regex : Bool) (sel : Sel) (p : Pkg) :
     Except Err Pkg := do
